@@ -616,7 +616,7 @@ def rand_cfg(rng, focus=()):
             c.cuts = (a, b)
     if not fasta:
         if f("nextseq", 0.15):
-            c.nextseq = rng.choice([5, 10, 20])
+            c.nextseq = rng.choice([5, 10, 20, 0])   # 0: only the G rule is left (every G counts as -1)
         if f("qual", 0.3):
             c.qcut = rng.choice(["10", "20", "15,10", "0", "5,0", "0,12"])
         c.zero_cap = f("zerocap", 0.1)
